@@ -73,6 +73,10 @@ CHECKS = {
             "exhaustive single-fault enumeration: for every k, fail exactly the k-th allocation / OS-object creation made by library code during session set-up (link-time interposition), in a forked ASan+LSan child",
             "Quick: first and last dynamic occurrence of every distinct allocation context (1202 contexts) of the encoder set-up and every fault point of the decoder set-up + first frame; thorough: every one of the ~91k encoder fault points. The failing call must return an error code, teardown must return, no crash, leak or thread left.",
             "single faults only; encoder 64x64 lp 1 without pictures; faults in calls made from libc itself are not modelled", "4/C16"),
+    "C15": ("encdrv/decdrv (asan+lsan) under sched", "model_checking",
+            "exhaustive enumeration of teardown points (call-history prefixes: after handle creation, rejected/accepted configuration, init, k pictures with/without draining, EOS, partial and full drain) x configurations, each executed on the real library under the controlled scheduler with LeakSanitizer",
+            "Every teardown point of the alphabet is executed; deinit and deinit_handle must return (a teardown that blocks is a detected deadlock), no thread may remain, LeakSanitizer must report nothing, and 5 create/encode/destroy cycles must not increase the exact live-heap byte count.",
+            "canonical schedule; 64x64/128x128 sessions with <= 19 pictures; decoder sessions with 1 and 3 threads", "4/C15"),
 }
 
 NOT_YET = {}
